@@ -9,4 +9,4 @@ Extraction "model.ml"
   Byte.of_N Byte.to_N N.of_nat N.to_nat
   Keys.nibs Keys.bytes_cmp
   Model.normalize Model.build Model.getid Model.get Model.rangeget Model.search Model.searchid
-  Model.node_views Model.tree_id Flat.fgetid.
+  Model.node_views Model.tree_id Flat.fgetid Flat.fsearchid.
